@@ -258,17 +258,35 @@ func (p *Prog) encodeFunctionIn(fn *ssa.Function, ct *Contract, workdir string) 
 	// package's init function) are assumed at entry, together with A13 (package-level variables written
 	// only by init keep that value)
 	if fn.Pkg != nil && fn.Name() != "init" {
-		if ict := p.contracts.ByKey[fn.Pkg.Pkg.Path()+".init"]; ict != nil {
+		// the function's own package and the packages it imports directly (their initialisers have run before any
+		// function of this package can)
+		initPkgs := []*types.Package{fn.Pkg.Pkg}
+		for _, imp := range fn.Pkg.Pkg.Imports() {
+			initPkgs = append(initPkgs, imp)
+		}
+		for _, ipk := range initPkgs {
+			ict := p.contracts.ByKey[ipk.Path()+".init"]
+			if ict == nil {
+				continue
+			}
 			ienv := f.baseEnv(st)
+			ienv.pkg = ipk
+			used := false
 			for _, en := range ict.Ensures {
 				t, err := ienv.evalBool(en.Expr)
 				if err != nil {
+					if ipk != fn.Pkg.Pkg {
+						continue // about unexported state of the imported package: not visible (and not needed) here
+					}
 					e.specError(fmt.Sprintf("%s init ensures %q: %v", ct.Key, en.Text, err))
 					continue
 				}
 				e.assume(t)
+				used = true
 			}
-			e.trust("A13 package-level state established by " + fn.Pkg.Pkg.Path() + ".init (proved) is unchanged afterwards")
+			if used {
+				e.trust("A13 package-level state established by " + ipk.Path() + ".init (proved) is unchanged afterwards")
+			}
 		}
 	}
 	// requires
